@@ -128,7 +128,7 @@ Definition process_clause (e : cfg) (gs : list graph) (lo : lopts) (c : clause) 
     else
       match cS c, cP c, cO c with
       | Some s, Some p, Some o =>
-          bind (simple_exist e gs c (mkTriple s p o)) (fun ur =>
+          bind (simple_exist e gs c (mkTriple s p o) lo) (fun ur =>
             match append_table t (mkTable (clause_bindings c) (snd ur)) with
             | Ok t' => Ok (fst ur, t')
             | Err x => Err x
